@@ -16,23 +16,24 @@ exec(open('tools/manifest_table.py').read())
 # strata added while testing the monitors against seeded changes (DESIGN.md 8.5)
 EXTRA = {
  "C01": " Added strata: power-of-ten minuends with far smaller subtrahends, exponents more than 100000 apart (a delivered result is judged, an exponent-limit error accepted), precisions 127..513, coincidence lengths (10^k within 5e-4 of a power of two), kept-boundary roundings (kept digits exactly 2^64-1 ...), giant roundings (100002..200001 digits), precisions from 2^31, plain-notation strings with long zero runs.",
- "C02": " Added strata as in C01 (coincidence lengths, far-apart exponents, precisions up to 513).",
+ "C02": " Added strata as in C01 (coincidence lengths, far-apart exponents, precisions up to 513); Cbrt on 200000 perfect cubes per quick run (Inexact exactly when the returned value is not the exact root).",
  "C03": " Added: ErrDecimal sequences with trap sets that change between calls, Exp arguments of magnitude 1e4..1e45, perfect squares/cubes with subnormal roots, composite functions at 300..700 digits.",
+ "C04": " Added: strings that are not text (runs of UTF-8 continuation bytes, lone lead bytes, 0xFF, NUL behind a numeric prefix) through every parser, with the error texts rendered.",
  "C05": " Added: Modf operands of 130..530 digits, BigInt.Rand and heap-history BigInt operands, Pow whose exact result is a tie.",
  "C06": " Added: same-object histories, isolation of NewWithBigInt/Set copies, destinations that were used before.",
  "C07": " Added: zeros and other operands from wider contexts (the MaxExponent clause applies to zeros), coincidence lengths, precisions from 2^31, Log10 of powers of ten in tiny exponent ranges, long-coefficient sweep to 12000 (quick) / 101000 (thorough) digits.",
  "C08": " Added to the grid: infinities as an overflow leaves them, NaNs with leftover exponent and payload, one written with 151 digits, odd integers written with 18..20 fraction zeros.",
- "C09": " Added: trap echo of every judged call, coincidence precisions (497, 643, ...), contexts whose MaxExponent is below their Precision.",
+ "C09": " Added: trap echo of every judged call, coincidence precisions (497, 643, ...), contexts whose MaxExponent is below their Precision, kept digits at machine-word and power-of-ten boundaries (2^64-1 followed by a tail that rounds away ...).",
  "C10": " Added: precisions from 2^31, exponent gaps beyond the power-of-ten table.",
- "C11": " Added: Sqrt at precisions of 16000..72000 digits.",
+ "C11": " Added: Sqrt at precisions of 16000..72000 digits; 400000 perfect cubes per quick run, half with roots next to a power of ten.",
  "C12": " Added: huge integer exponents for Pow (with and without a fractional part) on bases next to 1, Ln arguments in (1.1, e^0.1), arguments hugging the overflow threshold of Exp, a stratum at 300..1200 digits.",
- "C13": " Added: coefficients of 100002..200001 digits, encoded bytes held while other values are encoded, exact-midpoint floats.",
- "C14": " Added: strings of 64 KB..400 KB, exponent numerals that wrap in 32/64-bit arithmetic, written exponents beyond the limit compensated by the position of the point, giant zero fractions, a precision in the format directive.",
- "C15": " Added: digit-count sweep (every length to 3000 quick / 120000 thorough), every coincidence gap and digit count up to 200200, single-bit differences inside the low digits, twin pools of look-alike coefficients compared repeatedly, infinities as an overflow leaves them.",
+ "C13": " Added: coefficients of 100002..200001 digits, encoded bytes held while other values are encoded, exact-midpoint floats, coefficients Q*B+R with B a decimal limb (10^9..10^57) and Q at a machine-word boundary.",
+ "C14": " Added: strings of 64 KB..400 KB, exponent numerals that wrap in 32/64-bit arithmetic, written exponents beyond the limit compensated by the position of the point, giant zero fractions, a precision in the format directive, a list of what other notations write where a number is expected (null, nil, N/A, 1,000, 0x1p3, non-ASCII digits and signs ...).",
+ "C15": " Added: digit-count sweep (every length to 3000 quick / 120000 thorough), every coincidence gap and digit count up to 200200, single-bit differences inside the low digits, twin pools of look-alike coefficients compared repeatedly, infinities as an overflow leaves them, and for every gap 1..128 low digits equal to +/-m*2^j for every bit position j.",
  "C16": " Added: structured single calls (k^2+/-1, q*y+{0,1,y-1}, base^n+/-1), classical pseudoprimes for ProbablyPrime, nil receivers and damaged encodings, dirty FillBytes buffers.",
  "C17": " Added: exact-midpoint float cases, constructor argument isolation.",
  "C18": " Added: cold-start phase (first use of the package by 16 goroutines at once), shared contexts with six kinds of trap sets, Modf with nil parts, shared coefficients as BigInt arguments, pressure phase at working precisions of 500..9000 digits with a division storm, coefficients of 19800..40000 digits; panics inside concurrent calls are reported.",
- "C19": " Added: dense sweep of 10^j-1 and 10^j for every j up to 101000, twelve giant integers, zero runs of 131071..524288 (thorough).",
+ "C19": " Added: dense sweep of 10^j-1 and 10^j for every j up to 101000, twelve giant integers, zero runs of 131071..524288 (thorough), NumDigits at every length up to 2.5 million (quick) / 8 million (thorough) digits where 10^j lies within 2e-6 of a power of two.",
  "C20": " Added: monotone chains with mixed lengths, the exported Rounder.Round with a rounder other than the context's, kept-boundary roundings.",
 }
 for _id, _x in EXTRA.items():
